@@ -170,4 +170,5 @@ ASSUMPTIONS = ["__resampleTemporal: the loop is under contract (region); buildin
                "__resampleSpatial: the sampling loop is under contract (region); inputs of the region: S non-decreasing with S[0] = sini, ds > 0, "
                "N >= 0 with sini + N ds <= S[last] (real arithmetic: the code's while-guard against a rounding overshoot is never taken), "
                "well-formed input timestamps with non-negative epoch seconds; Obs.copy is a trusted deepcopy contract",
-               "Track.resample's front end and the monotonicity of the produced timestamps in the spatial mode are bounded only"]
+               "spatial mode: input times non-decreasing; 'timestamps never decrease' is proved for the interpolated real times TS_ (ghost "
+               "list), each sample being stamped within 1 ms below its time; Track.resample's front end is bounded only"]
